@@ -124,7 +124,9 @@ def h_fresh(eng, st, ty: Ty, name):
         e = z3.Const(fresh_name(name), z3.SeqSort(elem_sort(eng, ty.args[0])))
         return VRef(st.alloc(HObj("slist", None, {"e": e, "elem": ty.args[0]})))
     if h == "callable":
-        return VObj(z3.Const(fresh_name(name), ObjS), ty.args[0].head if ty.args else "Callback")
+        e = z3.Const(fresh_name(name), ObjS)
+        st.fact(e != z3.Const("none-obj", ObjS))       # an object is not the boxed None
+        return VObj(e, ty.args[0].head if ty.args else "Callback")
     if h == "exc":
         cls = eng.resolve_class(ty.args[0].head) if ty.args else Exception
         return fresh_exception(eng, st, cls)
